@@ -9,7 +9,7 @@ def claim(pid, text, note, technique, ref):
 TB = "Trusted: go/packages+go/types loading of /repo with default build tags (+verif), go/ssa construction (x/tools v0.29.0), and the rule implementations in /verif/checker. Decides only the structural clauses named; the value-level statement of the property is not decided."
 
 claim("C09",
- "Static table/guard analysis: decides, over every operator the lexer can emit (resolved from the rule table and its factory closures through SSA), the precedence relations that are necessary for 'expression == its parenthesised form' (atoms and prefix functions outrank infix and implicit post-traverse operators; infix order equals the reference precedence order; shunting-yard pops on strictly greater), layout facts computed on the rule regexes (whitespace class, comment rule, non-nullable rules, layout/delimiter characters end a bare path token), and the rejection guards of ConvertToPostfix/createExpressionTree by interval reasoning over len(stack); implicit operators inserted by token post-processing outrank every written infix operator; a constant rewrite of an expression read from a file keeps its line feeds; no operator rule ends in an optional class of letters that begin other tokens (four known findings on the pinned tree: the flag suffixes of `=`, `|=`, `*`, `*=` swallow the first letter of a following keyword); the implied slice start is supplied only after `.[`. A necessary-condition check: breaking any obligation changes a parse for some expression.",
+ "Static table/guard analysis: decides, over every operator the lexer can emit (resolved from the rule table and its factory closures through SSA), the precedence relations that are necessary for 'expression == its parenthesised form' (atoms and prefix functions outrank infix and implicit post-traverse operators; infix order equals the reference precedence order; shunting-yard pops on strictly greater), layout facts computed on the rule regexes (whitespace class, comment rule, non-nullable rules, layout/delimiter characters end a bare path token), and the rejection guards of ConvertToPostfix/createExpressionTree by interval reasoning over len(stack); implicit operators inserted by token post-processing outrank every written infix operator; a constant rewrite of an expression read from a file keeps its line feeds; no operator rule ends in an optional class of letters that begin other tokens (four known findings on the pinned tree: the flag suffixes of `=`, `|=`, `*`, `*=` swallow the first letter of a following keyword); the implied slice start is supplied only after `.[`; a token whose lexeme ends with `)` is flagged CheckForPostTraverse like the `)` token (four known findings: to_yaml(N), to_xml(N), to_json(N), envsubst(..) reject a `.k`/`[k]` that their parenthesised form accepts). A necessary-condition check: breaking any obligation changes a parse for some expression.",
  TB + " T4's reference order is the documented precedence table kept as a relation.",
  "static analysis: operator/lexer table extraction (AST+SSA abstract evaluation of rule factories), regex language tests, dominator-based interval reasoning over len()",
  "DESIGN.md §3 C09")
@@ -27,37 +27,37 @@ claim("C17",
  "DESIGN.md §3 C17")
 
 claim("C19",
- "Static error-discipline and exit-path analysis over the whole module: every call with an error result is an obligation (dropped / swallowed `if err != nil { return nil }` / recovered-and-lost are findings); every locally created buffering writer must be flushed, with the error observed, on every non-error exit that follows a write (path search on the SSA CFG); in both RunE siblings the evaluation error must reach the returned value, completedSuccessfully must be `err == nil` of it, deferred steps may set the command error only when it is nil, main must exit non-zero under Execute() != nil; the -e test must guard the success exit and the printedMatches flag must be monotone; the siblings must call the same set-up functions; the -n route must not reach readStream/os.Stdin; decoder state written by Decode must be reset by Init; nothing silences or redirects cobra's error echo; the TOML decoder consults its parser's accumulated error before every success return. Necessary conditions: each obligation, when broken, yields exit 0 (or a wrong -e status) for some failing run.",
+ "Static error-discipline and exit-path analysis over the whole module: every call with an error result is an obligation (dropped / swallowed `if err != nil { return nil }`, also through `break` or a jump to a bare `return nil` / a result nil-tested before its error is looked at / recovered-and-lost are findings); every locally created buffering writer must be flushed, with the error observed, on every non-error exit that follows a write (path search on the SSA CFG); in both RunE siblings the evaluation error must reach the returned value, completedSuccessfully must be `err == nil` of it, deferred steps may set the command error only when it is nil, main must exit non-zero under Execute() != nil; the -e test must guard the success exit, the printedMatches flag must be monotone and is read only by its accessor and its own update; the siblings must call the same set-up functions; the -n route must not reach readStream/os.Stdin; decoder state written by Decode must be reset by Init; nothing silences or redirects cobra's error echo; the TOML decoder consults its parser's accumulated error before every success return. Necessary conditions: each obligation, when broken, yields exit 0 (or a wrong -e status) for some failing run.",
  TB + " Accepted ignored-error sites are an explicit one-line-reason table in rules_c19.go.",
  "static analysis: SSA error-result use analysis, dominator-guard recognition, CFG must-pass-through (flush pairing), sibling call-set comparison, static call-graph reachability",
  "DESIGN.md §3 C19")
 
 claim("C12",
- "Static protocol analysis of the in-place write path: a census of every file-system-mutating call in the module against a closed role table (an unlisted function/callee pair is a violation); who-may-call and dominance rules — the target-writing steps are reachable only through FinishWriteInPlace on its evaluatedSuccessfully branch, which is invoked only from the deferred closures of the two RunE functions, under cmdError == nil, with completedSuccessfully = (evaluation error == nil); no truncating open of the target (one known finding: the cross-device fallback); must-pass-through of Chmod(temp, os.Stat(target).Mode()) (not Lstat) before every success return of CreateTempFile; the printer's flush error is returned; the handler's target path is its constructor argument, unchanged. Necessary conditions only: crash points and injected faults are not explored (that needs a different technique).",
+ "Static protocol analysis of the in-place write path: a census of every file-system-mutating call in the module against a closed role table (an unlisted function/callee pair is a violation); who-may-call and dominance rules — the target-writing steps are reachable only through FinishWriteInPlace on its evaluatedSuccessfully branch, which is invoked only from the deferred closures of the two RunE functions, under cmdError == nil, with completedSuccessfully = (evaluation error == nil); no truncating open of the target (one known finding: the cross-device fallback); must-pass-through of Chmod(temp, os.Stat(target).Mode()) (not Lstat) before every success return of CreateTempFile, and every Chmod in the module sets a FileInfo's Mode() unmodified (no masked or computed mode); the printer's flush error is returned; the handler's target path is its constructor argument, unchanged. Necessary conditions only: crash points and injected faults are not explored (that needs a different technique).",
  TB + " The role table in rules_c12.go is the reference for what each FS call is for.",
  "static analysis: call census against a role table, who-may-call over static callers, dominator-guard recognition, CFG must-pass-through",
  "DESIGN.md §3 C12")
 
 claim("C08",
- "Inter-procedural mutation-footprint analysis (engine E1): for each of the ~92 non-update operator handlers discovered from the operationType table, context-sensitive summaries (parameter/free-variable/global roots, fresh objects with separate container / Content / Key / back-edge contents, callbacks, interface dispatch over module implementations, locally built dynamic evaluations) show that no store reaches a node of the handler's context unless dominated by a !DontAutoCreate test; Context-deriving methods keep the read-only flag, WritableClone is the single escalation point and a writable context never meets a user sub-expression; the 42 operand evaluations that are read-only on the pinned tree (incl. the `as` binder and `select`) must stay read-only; no node takes another node's children as they are (a scratch copy sharing children with the document is the document under a second name); `|` returns its own context around the right side's results (no writable context escapes); every Context a deriving method can return had the read-only flag stored on every path; a Context literal inside a handler copies the flag. Necessary conditions: an unguarded store into an input node is visible in `(E) as $x | .`.",
+ "Inter-procedural mutation-footprint analysis (engine E1): for each of the ~92 non-update operator handlers discovered from the operationType table, context-sensitive summaries (parameter/free-variable/global roots, fresh objects with separate container / Content / Key / back-edge contents, callbacks, interface dispatch over module implementations, locally built dynamic evaluations) show that no store reaches a node of the handler's context unless dominated by a !DontAutoCreate test; Context-deriving methods keep the read-only flag, WritableClone is the single escalation point and a writable context never meets a user sub-expression; the 42 operand evaluations that are read-only on the pinned tree (incl. the `as` binder and `select`) must stay read-only; no node takes another node's children as they are (a scratch copy sharing children with the document is the document under a second name); `|` returns its own context around the right side's results (no writable context escapes); every Context a deriving method can return had the read-only flag stored on every path; a Context literal inside a handler copies the flag. `as $v` binds a Copy() of every matched node — no test on the node itself stands before the copy. Necessary conditions: an unguarded store into an input node is visible in `(E) as $x | .`.",
  TB + " E1 is flow-insensitive per function and collapses objects per allocation site; foreign functions are assumed not to write CandidateNode fields. The read-only reference table (ref_readonly.go) is the set of sites confirmed on the pinned tree.",
  "static analysis: summary-based provenance/mutation-footprint analysis over go/ssa with dominator guards; evaluation-site census against a confirmed reference",
  "DESIGN.md §2.2, §3 C08")
 
 claim("C10",
- "Static loop-shape and state analysis of the per-document pipeline: in streamEvaluator.Evaluate and readDocuments every path from Decode to the use of the node passes the three provenance stores with the right sources (CFG must-pass-through), the document counter is the loop-carried phi(0, counter+1) advanced after the document was consumed, the file counter advances once at EOF; the evaluation context is built from a list created inside the iteration and exactly one PrintResults prints this iteration's result; (engine E1) no handler stores document-dependent or late values into objects of the shared parsed expression tree and no handler except REF returns a node of that tree (literals are copied on use); every decoder field written by Decode is reset by Init; the zero-documents fallback tests a total accumulated over all files; the all-at-once file index is phi(0, index+1); provenance fields are read only through their accessors; encoders keep no state between results (3 tabled fields); the printer hands the leading content of every result to the encoder unconditionally. Necessary conditions of document independence and true provenance.",
+ "Static loop-shape and state analysis of the per-document pipeline: in streamEvaluator.Evaluate and readDocuments every path from Decode to the use of the node passes the three provenance stores with the right sources (CFG must-pass-through), the document counter is the loop-carried phi(0, counter+1) advanced after the document was consumed, the file counter advances once at EOF; the evaluation context is built from a list created inside the iteration and exactly one PrintResults prints this iteration's result; (engine E1) no handler stores document-dependent or late values into objects of the shared parsed expression tree and no handler except REF returns a node of that tree (literals are copied on use); every decoder field written by Decode is reset by Init; the zero-documents fallback tests a total accumulated over all files; the all-at-once file index is phi(0, index+1); provenance fields are read only through their accessors; encoders keep no state between results (3 tabled fields); the printer hands the leading content of every result to the encoder unconditionally. The exit-status flag printedMatches is read only by its accessor and its own update (never to decide separators), and a field an encoder receives anew for every result (xml leading content) is stored on every path of the receiving method. Necessary conditions of document independence and true provenance.",
  TB,
  "static analysis: CFG must-pass-through, SSA phi-shape recognition, summary-based mutation-footprint analysis (E1) rooted at the expression-node parameter, sibling field-write comparison (Init vs Decode)",
  "DESIGN.md §3 C10")
 
 claim("C18",
- "Static shared-state analysis: (engine E1 with global roots) from every evaluation entry point — expression parsing, all operator handlers, codec / printer / evaluator methods and constructors — no store to a package-level variable or through one (field stores, container updates, and — for methods of the process-wide singletons built under sync.Once — writes through the receiver) is reachable, except initialisation under sync.Once; dynamic calls through the lexer's rule table are resolved with the VTA call graph. No Decoder/Encoder instance is created in a package-level initialiser or captured by a lexer rule; the parsed expression tree carries no state between evaluations (C10-S3); clock / random / environment are read only by the excluded operators and cmd start-up; no map iteration feeds an ordered container or writer; decoder state is reset by Init; every lexer action allocates its token's Operation objects itself (no Operation shared between parses); encoder level counters are balanced per document; no encoder method stores into a field of its receiver outside three tabled ones; the printer resets encoder-held leading content for every result. With no goroutines and no other sync primitive in the module, 'no evaluation-time write to shared module memory' is also sufficient for race freedom on module memory.",
+ "Static shared-state analysis: (engine E1 with global roots) from every evaluation entry point — expression parsing, all operator handlers, codec / printer / evaluator methods and constructors — no store to a package-level variable or through one (field stores, container updates, and — for methods of the process-wide singletons built under sync.Once — writes through the receiver) is reachable, except initialisation under sync.Once; dynamic calls through the lexer's rule table are resolved with the VTA call graph. No Decoder/Encoder instance is created in a package-level initialiser or captured by a lexer rule; the parsed expression tree carries no state between evaluations (C10-S3); clock / random / environment are read only by the excluded operators and cmd start-up; no map iteration feeds an ordered container or writer; decoder state is reset by Init; every lexer action allocates its token's Operation objects itself (no Operation shared between parses); encoder level counters are balanced per document; no encoder method stores into a field of its receiver outside three tabled ones; the printer resets encoder-held leading content for every result. With no goroutines and no other sync primitive in the module, 'no evaluation-time write to shared module memory' is also sufficient for race freedom on module memory. A field an encoder receives anew for every result (xml leading content) is stored on every path of the receiving method.",
  TB + " Third-party packages are assumed goroutine-safe as documented.",
  "static analysis: summary-based mutation-footprint analysis with global roots (E1), VTA call graph for table-driven dispatch, initialiser census, who-may-call for nondeterminism sources",
  "DESIGN.md §3 C18")
 
 claim("C02",
- "Static analysis of the assignment primitives with engine E1 summaries: UpdateFrom / UpdateAttributesFrom store nothing of the assigned value into the target but scalars, fresh deep copies and the Alias pointer, replace Kind/Content/Value on every path (CFG must-pass-through), and write only fields of the receiver; everything the ASSIGN handlers write goes through them on a match or is guarded auto-creation; compound assignment applies its operator to a Copy() of the match; `|=` hands UpdateFrom the first result of the right-hand side (not a loop variable over all results); a length snapshot of a node's Content is never used after a possible resize of that Content without being re-taken (resize summaries computed to a fixed point); a kind change resets the children before the new kind is stored (must-pass-through); the assignment primitives write value and presentation attributes only, never position, provenance or the document header; and the 42 operand evaluations that are read-only on the pinned tree (RHS of `=`, index expressions, operator operands) stay read-only. Necessary conditions of put-get / put-put / frame: aliasing RHS nodes, a store outside the receiver, or a writable operand evaluation each break a law for some input.",
+ "Static analysis of the assignment primitives with engine E1 summaries: UpdateFrom / UpdateAttributesFrom store nothing of the assigned value into the target but scalars, fresh deep copies and the Alias pointer, replace Kind/Content/Value on every path (CFG must-pass-through), and write only fields of the receiver; everything the ASSIGN handlers write goes through them on a match or is guarded auto-creation; compound assignment applies its operator to a Copy() of the match; `|=` hands UpdateFrom the first result of the right-hand side (not a loop variable over all results); a length snapshot of a node's Content is never used after a possible resize of that Content without being re-taken (resize summaries computed to a fixed point); a kind change resets the children before the new kind is stored (must-pass-through); the assignment primitives write value and presentation attributes only, never position, provenance or the document header; and the 42 operand evaluations that are read-only on the pinned tree (RHS of `=`, index expressions, operator operands) stay read-only. Whether traverseMap creates a missing entry does not depend on the text of the key. Necessary conditions of put-get / put-put / frame: aliasing RHS nodes, a store outside the receiver, or a writable operand evaluation each break a law for some input.",
  TB + " Read-only reference table: ref_readonly.go.",
  "static analysis: summary-based mutation-footprint / provenance analysis (E1), CFG must-pass-through, SSA pattern for the copy in compound assignment, CFG reachability of stale length snapshots with inter-procedural resize summaries, evaluation-site census",
  "DESIGN.md §3 C02")
@@ -67,12 +67,12 @@ claim("C03",
  "static analysis: E1 footprint comparison against the expected set, static reachability (who-may-call the glob matcher), SSA comparison-shape rule",
  "DESIGN.md §3 C03")
 claim("C04",
- "Static analysis of deep merge: E1 shows that from the MULTIPLY handler through the crossFunction callback, mergeObjects and applyAssignment (locally built ASSIGN / ASSIGN_ATTRIBUTES / ADD_ASSIGN expressions evaluated on a fresh copy of the left operand) no store reaches a node of the operands or the context; the writable context created for the merge never meets a user sub-expression; UpdateFrom deep-copies (result shares no node with the right operand); a reaching-definitions check shows the merge preferences always carry DontFollowAlias; the merge callback returns only objects allocated during the call; a function that receives a preferences struct hands its callees that struct (or a copy with overrides), never a fresh literal (23 sites incl. the recursive builder of the deep-merge assignments); the attribute update is not confined to !OnlyWriteNull; a kind change resets the children; mergeObjects skips an element of the right operand only for the !!merge tag; string-tagged keys are never parsed as numbers. Necessary conditions of operand immutability.",
+ "Static analysis of deep merge: E1 shows that from the MULTIPLY handler through the crossFunction callback, mergeObjects and applyAssignment (locally built ASSIGN / ASSIGN_ATTRIBUTES / ADD_ASSIGN expressions evaluated on a fresh copy of the left operand) no store reaches a node of the operands or the context; the writable context created for the merge never meets a user sub-expression; UpdateFrom deep-copies (result shares no node with the right operand); a reaching-definitions check shows the merge preferences always carry DontFollowAlias; the merge callback returns only objects allocated during the call; a function that receives a preferences struct hands its callees that struct (or a copy with overrides), never a fresh literal (23 sites incl. the recursive builder of the deep-merge assignments); the attribute update is not confined to !OnlyWriteNull; a kind change resets the children; mergeObjects skips an element of the right operand only for the !!merge tag; string-tagged keys are never parsed as numbers. A function calling itself never overrides a field of the preferences it received. Necessary conditions of operand immutability.",
  TB,
  "static analysis: summary-based mutation-footprint analysis (E1) incl. locally built dynamic evaluations, writable-context taint, CFG reaching-definitions on a preference field, SSA argument-provenance rule for preference forwarding",
  "DESIGN.md §3 C04")
 claim("C07",
- "Static analysis of what an update may touch: footprints of the assignment primitives and of delete confined to the addressed node / the parent's child list (E1); every comment / style / anchor / tag store in UpdateAttributesFrom is control-dependent on the new value bringing that attribute (dominator guards); Copy() carries every CandidateNode field and shares nothing but Parent/Alias; AddChild/AddKeyValueChild add full Copy()s of their arguments; the assignment primitives never write position, provenance or the document header; string-tagged keys stay strings in paths; operands evaluated read-only on the pinned tree stay read-only (an index expression may not auto-create keys outside the target). Necessary conditions: an unconditional attribute store or a store outside the target is exactly 'presentation changed without being asked'.",
+ "Static analysis of what an update may touch: footprints of the assignment primitives and of delete confined to the addressed node / the parent's child list (E1); every comment / style / anchor / tag store in UpdateAttributesFrom is control-dependent on the new value bringing that attribute (dominator guards); Copy() carries every CandidateNode field and shares nothing but Parent/Alias; AddChild/AddKeyValueChild add full Copy()s of their arguments; the assignment primitives never write position, provenance or the document header; string-tagged keys stay strings in paths; operands evaluated read-only on the pinned tree stay read-only (an index expression may not auto-create keys outside the target). `as $v` binds a Copy() of every matched node, whatever the node is. Necessary conditions: an unconditional attribute store or a store outside the target is exactly 'presentation changed without being asked'.",
  TB,
  "static analysis: E1 footprints, dominator-guard recognition per attribute store, struct-literal field coverage, evaluation-site census",
  "DESIGN.md §3 C07")
@@ -83,17 +83,17 @@ claim("C16",
  "DESIGN.md §3 C16")
 
 claim("C05",
- "Deliberately narrow static check of the YAML round trip: the yaml.Node attribute set read while decoding equals the set written while encoding (and likewise for CandidateNode attributes), computed from field accesses in the four conversion functions; the two style maps are mutually inverse on the named styles with numerically equal constants and an identity fall-through; Copy() carries every CandidateNode field; the document-separator marker is one literal; decoder and encoder recognise a leading comment line with the same pattern; every yaml.Node returned by MarshalYAML passed through copyToYamlNode on every path; MarshalYAML has an arm for every node kind. Necessary conditions: an attribute dropped in either direction is lost for every document carrying it. Everything that depends on yaml.v3's emitter and on leading-content pre-processing is NOT decided.",
+ "Deliberately narrow static check of the YAML round trip: the yaml.Node attribute set read while decoding equals the set written while encoding (and likewise for CandidateNode attributes), computed from field accesses in the four conversion functions; the two style maps are mutually inverse on the named styles with numerically equal constants and an identity fall-through; Copy() carries every CandidateNode field; the document-separator marker is one literal; decoder and encoder recognise a leading comment line with the same pattern; every yaml.Node returned by MarshalYAML passed through copyToYamlNode on every path; MarshalYAML has an arm for every node kind. copyToYamlNode writes each attribute on every path whatever the node kind; printedMatches is never read to decide what is printed. Necessary conditions: an attribute dropped in either direction is lost for every document carrying it. Everything that depends on yaml.v3's emitter and on leading-content pre-processing is NOT decided.",
  TB,
  "static analysis: field read/write set comparison over SSA, constant-table bijection check on the AST, struct-literal coverage, literal agreement",
  "DESIGN.md §3 C05")
 claim("C06",
- "Static check of the YAML<->JSON conversion paths: every json encoder reaches Encode only after SetEscapeHTML(false) (CFG must-pass-through); JSON scalars are decoded with UseNumber and no unsigned->signed conversion is applied to parsed integers; only the printer invokes Encoder.Encode, after testing CanHandleAliases and exploding on the negative branch; no Go map is a decode target or ranged over; MarshalJSON returns the scalar conversion error; the latest anchor definition wins and merged values are exploded on every path; MarshalJSON encodes o.Content only where it is known non-empty (a nil slice prints as null) and has an arm for every node kind; the !!int arm of GetValueRep never goes through ParseFloat; the JSON encoder never uses Go's quoting functions. Necessary conditions of value-exactness; string escaping and float formatting are delegated to goccy/go-json and not decided.",
+ "Static check of the YAML<->JSON conversion paths: every json encoder reaches Encode only after SetEscapeHTML(false) (CFG must-pass-through); JSON scalars are decoded with UseNumber and no unsigned->signed conversion is applied to parsed integers; only the printer invokes Encoder.Encode, after testing CanHandleAliases and exploding on the negative branch; no Go map is a decode target or ranged over; MarshalJSON returns the scalar conversion error; the latest anchor definition wins and merged values are exploded on every path; MarshalJSON encodes o.Content only where it is known non-empty (a nil slice prints as null) and has an arm for every node kind; the !!int arm of GetValueRep never goes through ParseFloat; the JSON encoder never uses Go's quoting functions. A command-line setting (package-level flag variable) is not rewritten in a function after a decision was taken from it there. Necessary conditions of value-exactness; string escaping and float formatting are delegated to goccy/go-json and not decided.",
  TB,
  "static analysis: CFG must-pass-through, decode-target type census, who-may-call, dominator-guard recognition",
  "DESIGN.md §3 C06")
 claim("C13",
- "Narrow static check over the three read routes (traverse, explode, JSON encode): every site that classifies a map entry as a merge key uses the same predicate (tag !!merge); non-alias-capable encoders get exploded input; an anchor definition unconditionally replaces the previous one of that name; overrideEntry explodes the value on every successful path; explodeNode's recursion into children is not conditional on the child; a merged mapping is read through doTraverseMap (nested merge keys followed); the JSON route has an arm for alias nodes. Necessary conditions of route agreement; which source wins (explicit vs merged, list order) is a value-level fact and NOT decided.",
+ "Narrow static check over the three read routes (traverse, explode, JSON encode): every site that classifies a map entry as a merge key uses the same predicate (tag !!merge); non-alias-capable encoders get exploded input; an anchor definition unconditionally replaces the previous one of that name; overrideEntry explodes the value on every successful path; explodeNode's recursion into children is not conditional on the child; a merged mapping is read through doTraverseMap (nested merge keys followed); the JSON route has an arm for alias nodes. Preferences and the per-document anchor table are handed on as received (a function calling itself never changes a preference for the recursion; the anchor table parameter is passed, never a fresh map). Necessary conditions of route agreement; which source wins (explicit vs merged, list order) is a value-level fact and NOT decided.",
  TB,
  "static analysis: sibling-predicate agreement over SSA comparisons, control-dependence of a map update, CFG must-pass-through",
  "DESIGN.md §3 C13")
@@ -104,7 +104,7 @@ claim("C14",
  "DESIGN.md §3 C14")
 
 claim("C11",
- "Static census of panic-capable constructs over the whole module, each an obligation decided on every run: explicit panic statements and panicking third-party APIs (only in a reasoned table / with constant arguments); unchecked Preferences type assertions checked against every construction site of the operation type (lexer rule table resolved through its factory closures + Operation literals in code); list-element typing; handler operand dereferences vs NumArgs; Front()/Back()/Alias dereferences under a nil or length test; constant and len-k index/slice bounds proved by dominator-based interval reasoning over len() or covered by a residual table that names the invariant; all 222 variable index/slice bounds proved (loop shapes, dominating and edge tests, make lengths, equal-length tests, caller guarantees, key-finder contracts, the key/value pair idiom) or tabled per bound (31) — this found and fixed three crashes; csv readers keep rectangular records; a pointer result is dereferenced only where its error is known nil; upper bounds also through min(), tested values on phi edges and helper results; level counters are balanced on every non-error exit; calculations registered with calcWhenEmpty use their operands only where a path-sensitive nil analysis knows them non-nil; guarded division / Repeat / make; length snapshots of a node's Content are not used after a possible resize; the lexeme-slicing helpers are verified against the regex of every lexer rule that calls them. The 'never hangs' half of the property, general nil dereferences, third-party parser panics and stack exhaustion are NOT decided.",
+ "Static census of panic-capable constructs over the whole module, each an obligation decided on every run: explicit panic statements and panicking third-party APIs (only in a reasoned table / with constant arguments); unchecked Preferences type assertions checked against every construction site of the operation type (lexer rule table resolved through its factory closures + Operation literals in code); list-element typing; handler operand dereferences vs NumArgs; Front()/Back()/Alias dereferences under a nil or length test; constant and len-k index/slice bounds proved by dominator-based interval reasoning over len() or covered by a residual table that names the invariant; all 222 variable index/slice bounds proved (loop shapes, dominating and edge tests, make lengths, equal-length tests, caller guarantees, key-finder contracts, the key/value pair idiom) or tabled per bound (31) — this found and fixed three crashes; csv readers keep rectangular records; a pointer result is dereferenced only where its error is known nil; upper bounds also through min(), tested values on phi edges and helper results; level counters are balanced on every non-error exit; calculations registered with calcWhenEmpty use their operands only where a path-sensitive nil analysis knows them non-nil; guarded division / Repeat / make; length snapshots of a node's Content are not used after a possible resize; the lexeme-slicing helpers are verified against the regex of every lexer rule that calls them. The 'never hangs' half of the property, general nil dereferences, third-party parser panics and stack exhaustion are NOT decided. A recursion that descends into children re-enters itself along an alias edge only behind an ancestor test (two stack overflows found and fixed).",
  TB + " The residual tables in rules_c11.go (41 constant-index sites, 31 variable-index sites, 2 list-end sites, 4 arithmetic sites, 1 accepted panic) were triaged by reading each site; every row carries its invariant.",
  "static analysis: panic-site census with dominator-based interval reasoning over len(), type-assertion / construction-site agreement from the extracted operator and lexer tables, nil-guard recognition",
  "DESIGN.md §3 C11")
